@@ -1,7 +1,10 @@
 #!/bin/bash
+# Runs the thorough tier of the given properties from the current directory's /verif snapshot
+# (vp run --with-repo: against the repo snapshot in $VP_RUN_REPO, so edits to /repo do not disturb it).
 export GOFLAGS=-mod=mod GOPROXY=off GOSUMDB=off GOTOOLCHAIN=local
 export VERIF_DIR=$PWD
+[ -n "$VP_RUN_REPO" ] && export VERIF_REPO=$VP_RUN_REPO
 (cd engine && go build -o ../bin/symgo ./cmd/symgo) || exit 2
 for p in "$@"; do
-  echo "=== $p"; /usr/bin/time -f "%es %MKB" ./bin/symgo check -prop $p -tier thorough 2>&1 | grep "paths=\|INCON\|VIOL\|exit=\|KB" | cut -c1-300
+  echo "=== $p"; /usr/bin/time -f "%es %MKB" ./bin/symgo check -prop $p -tier ${TIER:-thorough} 2>&1 | grep "paths=\|INCON\|VIOL\|exit=\|KB" | cut -c1-300
 done
